@@ -347,6 +347,22 @@ func H_C03_Accept() {
 		return
 	}
 	Cover("accepted")
+	// the tree of an accepted program holds every token of the program: the tokens reachable
+	// from the root (free-floating ones included), in offset order, tile the source. A
+	// construct that was parsed but not stored is not the tree the grammar prescribes.
+	toks := mergeSortTokens(withPositions(TokensOf(a.Root, nil, true)))
+	at := 0
+	for _, t := range toks {
+		if t.Position.StartPos != at {
+			Fail("C03:tree-holds-every-token-of-the-program", "source text missing before "+t.ID.String())
+			return
+		}
+		at = t.Position.EndPos
+	}
+	if at != len(in) {
+		Fail("C03:tree-holds-every-token-of-the-program", "source text missing at the end")
+		return
+	}
 }
 
 // H_C03_Gate: version-specific syntax is accepted exactly under the versions that
